@@ -4,8 +4,9 @@ package analyzer
 // Import graph analysis
 //
 
-// As soon as the algorithm detects that the `originalStart` node is reachable from other modules, it returns an error
-func (self Analyzer) importGraphIsCyclicInner(originalStart string, start string, path []string) (outputPath []string, isCyclic bool) {
+// Depth-first search: as soon as the algorithm reaches a module which is already on the current path, it returns an error.
+// This also covers cycles which do not contain the `start` module (e.g. main -> a -> b -> a).
+func (self Analyzer) importGraphIsCyclicInner(start string, path []string, visited map[string]struct{}) (outputPath []string, isCyclic bool) {
 	// modules reachable from `start`
 	module, found := self.modules[start]
 	if !found {
@@ -16,10 +17,19 @@ func (self Analyzer) importGraphIsCyclicInner(originalStart string, start string
 	neighbors := module.ImportsModules
 
 	for _, node := range neighbors {
-		if node == originalStart {
-			return append(path, node), true
+		for _, onPath := range path {
+			if node == onPath {
+				return append(path, node), true
+			}
 		}
-		if path, cyclic := self.importGraphIsCyclicInner(originalStart, node, append(path, node)); cyclic {
+
+		// modules which were already searched completely cannot be part of a cycle
+		if _, done := visited[node]; done {
+			continue
+		}
+		visited[node] = struct{}{}
+
+		if path, cyclic := self.importGraphIsCyclicInner(node, append(path, node), visited); cyclic {
 			return path, cyclic
 		}
 	}
@@ -28,5 +38,5 @@ func (self Analyzer) importGraphIsCyclicInner(originalStart string, start string
 }
 
 func (self Analyzer) importGraphIsCyclic(start string) (outputPath []string, isCyclic bool) {
-	return self.importGraphIsCyclicInner(start, start, []string{start})
+	return self.importGraphIsCyclicInner(start, []string{start}, map[string]struct{}{start: {}})
 }
